@@ -315,7 +315,7 @@ def gen_ess(rng, n):
         net = gennet.gen_network(rng, finite_only=(k % 4 != 0), genes=True, max_rxns=8)
         net["dir"] = "max" if k % 6 else net["dir"]
         cases.append({"kind": "ess", "net": net, "entity": "gene" if k % 2 else "reaction",
-                      "threshold": None if k % 3 else rng.choice(["1/2", "1", "5", "0", "1/1024"]),
+                      "threshold": None if k % 3 == 2 else rng.choice(["1/2", "1", "5", "0", "0", "0", "1/1024"]),
                       "processes": 2 if k % 7 == 1 else 1})
     return cases
 
@@ -324,7 +324,7 @@ def gen_cases(rng, tier):
     quick = tier == "quick"
     only = os.environ.get("C06_ONLY")
     out = []
-    for kind, gen, n in (("del", gen_del, 150 if quick else 2500), ("ess", gen_ess, 60 if quick else 800)):
+    for kind, gen, n in (("del", gen_del, 150 if quick else 2500), ("ess", gen_ess, 90 if quick else 1200)):
         cs = gen(rng, n)
         if only in (None, "", kind):
             out += cs
